@@ -28,98 +28,147 @@ CHECKS = {'C01': {'text': 'Lean theorems about an interleaving transition system
                       'model) + outcome-set correspondence under a deterministic scheduler'},
  'C02': {'text': 'Lean theorems over the forwarding model (all method names, args, kwargs, aliases, context names, any number of concurrent callers '
                  'and arrival orders): proxy_eq_direct at full strength (outcome of a blocking or non-blocking proxy call = outcome of the direct '
-                 'call, local and peer placement, with stubs and helper signature as extracted from the current source, given pickle round-trips the '
-                 "call's values), payload_untouched, transfer_ok, round_trip_restores_addresses, kwargs_and_args_preserved, "
-                 'stub_sends_own_name(+_gen), gen_helper_params_empty, unique_address_injective, issued_addresses_nodup, incoming_aliases_distinct, '
-                 'accept_keeps_routes, reply_goes_to_requester, concurrent_callers_own_outcome. Tie: differential testing of a direct object against '
-                 'local/peer proxies (simulated network under the deterministic scheduler; real loopback TCP in thorough) over structured random '
-                 'values, concurrent-caller and client-churn (connect/disconnect/reconnect) families, and line-by-line replay of the tapped '
-                 'message-level trace on the Lean driver.',
+                 'call, local and peer placement, with stub binding and helper signature as extracted from the current source, given pickle '
+                 "round-trips the call's values); proxy_with_timeout_eq_direct (a call with rpc_timeout that completes in time = the direct call "
+                 'without that keyword), deadline_outcome, late_reply_discarded, unregister_keeps_others (a timed-out call raises '
+                 'QMI_RpcTimeoutException and its late reply touches no other caller), nonblocking_timeout_keyword_rejected; locked_call_refused, '
+                 'proxy_tokens_in_sync, granted_token_is_forwarded; payload_untouched, transfer_ok, round_trip_restores_addresses, '
+                 'kwargs_and_args_preserved, stub_sends_own_name(+_gen), gen_helper_params_empty, unique_address_injective, issued_addresses_nodup, '
+                 'incoming_aliases_distinct, accept_keeps_routes, reply_goes_to_requester, concurrent_callers_own_outcome (37 theorems). Tie: '
+                 'differential testing of a direct object against local/peer proxies (simulated network under the deterministic scheduler; real '
+                 'loopback TCP in thorough) over structured random values; families for concurrent callers, client churn '
+                 '(connect/disconnect/reconnect), rpc_timeout with a slow method under virtual time, and a fixed corpus (locks and token forwarding, '
+                 'context-manager protocol, chained exceptions, returned self/proxy/future); line-by-line replay of the tapped message-level trace '
+                 'on the Lean driver.',
          'note': 'Value fidelity across pickle is VALIDATED DIFFERENTIALLY, NOT PROVED (theorems assume decode(encode v)=v; values plain pickle does '
-                 'not reproduce are outside the quantifier, excluded and counted). The keyword-name collision with the helper parameters '
-                 '(context/rpc_object_address/method_name/rpc_lock_token) found by this check was fixed in 266e9a5 (positional-only); '
-                 'gen_helper_params_empty now guards it and the former failing calls are replayed as a regression test. Reply routing between client '
-                 'connections rests on the freshness of $client_N aliases (incoming_aliases_distinct); the churn family checks it on the real code. '
-                 'rpc_timeout is a reserved proxy keyword. Trusted: taps/value generator/equality in harness/props/_c02_*.py, stubKwargs as model of '
-                 'Python argument binding, lock state as an input (C04), framing (C06), send-failure branches of _SocketManager.send_message (C01).',
+                 'not reproduce are outside the quantifier, excluded and counted; pickle does not carry __cause__/__context__ of an exception - '
+                 'type, args and attributes are compared). The keyword-name collision with the helper parameters found by this check was fixed in '
+                 '266e9a5; gen_helper_params_empty guards it. Reply routing between client connections rests on the freshness of $client_N aliases '
+                 "(incoming_aliases_distinct). rpc_timeout is the reserved proxy-level keyword (modelled). Observation outside the property's "
+                 'quantifier (unpicklable return value): `with proxy:` on a PEER proxy of a QMI_Instrument raises QMI_MessageDeliveryException and '
+                 'leaves the instrument open, because __enter__ returns the instrument itself; recorded in the evidence, not repaired (tests rely on '
+                 '__enter__ returning self). Trusted: taps/value generator/equality in harness/props/_c02_*.py, stubKwargs as model of Python '
+                 "argument binding, the object's lock state as an input (C04), framing (C06), send-failure branches of _SocketManager.send_message "
+                 '(C01), the clock.',
          'technique': 'Lean 4 proof (forwarding/routing model, unbounded callers) + AST translator (stub binding, helper signature) + differential '
-                      'testing and trace refinement against the real code under a deterministic scheduler'},
+                      'testing and trace refinement against the real code under a deterministic scheduler with virtual time'},
  'C03': {'text': 'Lean theorems over all reachable states of an interleaving model of the request path as a pipeline of FIFO stages (unboundedly '
-                 'many caller threads, contexts, objects, requests; actions '
-                 'start/issue/enqLocal/enqRemote/loopRun/wireDeliver/workerPop/workerFinish): fifo_pipeline (for every caller c and object o the '
-                 'stages executed++cur++fifo++wire++ready++hand restricted to (c,o) equal the issue sequence), per_caller_order '
-                 '(+_started,_by_caller: executions are a prefix of the issue order, incl. non-blocking calls never waited for), no_loss_no_dup, '
-                 'executed_at_most_once, one_at_a_time (pops-finishes in {0,1} after every prefix of every run), exec_only_by_worker / '
-                 'single_executing_thread / executed_only_by_finish. Tie: real contexts, proxies, event loops and worker threads under the '
-                 'deterministic scheduler + simulated network with a probe object (line-level yield points); taps on the proxy call entry, loop '
-                 'hand-off, _PeerTcpConnection.send_message, handle_message, push_rpc_request, the _fifo deque and the worker loop give a linearised '
-                 'event log that the Lean driver replays (each event enabled, same queue contents, invariant kept); independent oracle: no overlap, '
-                 'per-caller sequence 0,1,2,…, no duplicate/phantom execution, one executing thread per object.',
-         'note': 'Trusted: Lean kernel + 3 axioms; detsched/simnet harness and the taps (incl. the logging subclass installed for _RpcThread._fifo). '
-                 'Single-workerness is structural in the model (one `cur` slot, `start` guarded) and is checked on the code only by refinement + '
-                 'overlap/second-thread oracle on explored schedules (300 quick / 7000 thorough). Assumes each caller thread issues its calls '
-                 'through one context; replies, removal, disconnects, lock requests are out of this model (C01/C04).',
-         'technique': 'Lean 4 proof (inductive invariant over an interleaving pipeline model) + trace refinement under a deterministic scheduler'},
+                 'many caller threads, contexts, objects, requests; 15 actions: '
+                 'start/issue/lookupLocal/pushLocal/enqRemote/loopRun/lookupWire/pushWire/workerPop/workerFinish and object removal '
+                 'unregister/stopMark/shutdownReq/workerLeave/rejectOne): fifo_pipeline (for every caller thread c, proxy context k and object o the '
+                 'places executed++cur++rejected++fifo++refused++heldL++wire++ready++heldC++hand restricted to (c,k,o) equal the issue sequence), '
+                 'per_route_order (+_started; executions are a prefix of the issue order, incl. non-blocking calls never waited for; the model has '
+                 'no wait action, so executions cannot depend on waits), per_caller_order (the property as stated, for a thread using proxies of one '
+                 'context) and the negation witness cross_route_overtake (a thread alternating between a peer proxy and a local proxy of one object: '
+                 'known finding order-across-routes, replayed on the code by the harness); removal: rejected_follow_executed, '
+                 'rejected_or_refused_not_executed, nothing_executes_after_leave, no_enqueue_after_stop; no_loss_no_dup, executed_at_most_once; '
+                 'one_at_a_time (pops-finishes in {0,1} after every prefix of every run), exec_only_by_worker / single_executing_thread / '
+                 'executed_only_by_finish; code_shape_single_worker: decide-obligation on Gen/RpcShape.lean, regenerated on every run from the AST '
+                 'of the qmi package (one guarded creation+start of one _RpcThread per manager, no other thread started in rpc.py, request handlers '
+                 'called only from the worker loop, one popleft under _cv per iteration followed by the handling in the same iteration, fifo only '
+                 'appended to / popped from the left, push_rpc_request only from handle_message under _stop_lock). Tie: real contexts, proxies, '
+                 "event loops and worker threads under the deterministic scheduler + simulated network; requests = the probe's own method, inherited "
+                 'get_name/get_signals, lock-protocol requests, blocking calls given up by a tiny rpc_timeout, through own or peer proxies, 1..2 '
+                 'objects (threads hopping between objects), shared or per-thread proxies, objects removed while calls are under way; taps (proxy '
+                 'call entry, request-id binding, loop hand-off, _PeerTcpConnection.send_message, the handler map, handle_message, the _fifo deque, '
+                 '_running, shutdown, _reject_remaining_requests, the two request handlers) give a linearised event log that the Lean driver replays '
+                 '(each event enabled, same queue contents and same fate held/enqueued/refused/rejected, invariant kept); oracle over the handler '
+                 "records and the callers' own call/result records: no overlap, per-route sequence 0,1,2,…, no duplicate/phantom execution, one "
+                 'executing thread per object, no execution after removal or of a call answered with a delivery error.',
+         'note': 'Trusted: Lean kernel + 3 axioms; detsched/simnet harness, the taps (incl. the logging subclasses installed for _RpcThread._fifo '
+                 'and MessageRouter._address_to_messagehandler_map and the property installed for RpcObjectManager._running) and the AST translator '
+                 "harness/tr_rpcshape.py. Single-workerness is structural in the model; the code's shape is a generated obligation plus refinement + "
+                 'overlap/second-thread oracle on explored schedules (322 quick / ~5000 thorough). Order is proved per (thread, proxy context, '
+                 'object); across proxies of two contexts used by one thread it fails (known finding, no small repair). Not in this model: '
+                 'connection loss, reply contents (C01/C02/C06), effect of lock requests (C04); context stop only as scenario clean-up.',
+         'technique': 'Lean 4 proof (inductive invariants over an interleaving pipeline model incl. object removal; decide witness for the '
+                      'cross-route counterexample; generated code-shape obligation) + trace refinement under a deterministic scheduler'},
  'C04': {'text': 'Lean theorems at full strength over every system state (any number of context instances incl. same-named ones, proxies, tokens) '
-                 'and, by induction, every finite history: gen_eq_spec (generated lock table = reference for all token values, no cell crashes), '
-                 'guard_eq_spec, single_owner, lock_free_object, lock_granted_means_owner, reserved_token_refused, only_owner_executes(+_history), '
-                 'refused_without_executing, owner_gets_through, count_changes_only_by_execution, release_only_by_owner_or_force(+_history), '
-                 'is_locked_truthful, lock_requests_total, never_hangs, nb_token_in_sync, mkToken_injective, auto_tokens_distinct, '
-                 'only_holder_executes. Gen/LockFsm.lean is regenerated every run by executing the real '
-                 '_handle_lock_rpc_request/_handle_method_rpc_request on a stub thread for every (action, state, token relation) cell; 400 random '
-                 'histories (quick) + exhaustive cell sweep on real QMI_Context instances over loopback TCP, diffed with the model driver and judged '
-                 'by an independent ideal-lock oracle; 2-4 concurrent threads under the deterministic scheduler with line-level yield points in '
-                 'make_unique_token (weighted/pct policies, change-point sweeps), worker request log replayed on the model.',
+                 'and, by induction, every finite history incl. object removal/re-creation and client disconnect: gen_eq_spec (generated lock table '
+                 '= reference for all token values, no cell crashes), guard_eq_spec, single_owner, lock_free_object, lock_granted_means_owner, '
+                 'reserved_token_refused, only_owner_executes(+_history), refused_without_executing, owner_gets_through, '
+                 'count_changes_only_by_execution, release_only_by_owner_or_force(+_history), recreate_starts_unlocked, lock_survives_disconnect, '
+                 'stale_token_does_not_own_new_object, is_locked_truthful, lock_requests_total, never_hangs, nb_token_in_sync, mkToken_injective, '
+                 'auto_tokens_distinct, only_holder_executes; lock(timeout>0) retry loop: retry_count_le, retry_false_used_all, '
+                 'retry_stops_at_first_grant, retry_denied_step, retry_granted_means_owner, iters_le (at most ceil(timeout/period) attempts for any '
+                 'round-trip times), iters_pos; with-form: with_form_refused, with_form_runs; Props/C04Atomic: statement-level interleaving model of '
+                 'make_unique_token for any number of threads, tokens_distinct_all_schedules + critical_section_exclusive by inductive invariant, '
+                 "obligations gen_prog_atomic / gen_token_shape on Gen/TokenProg.lean generated from the function's AST. Gen/LockFsm.lean "
+                 'regenerated every run by executing the real _handle_lock_rpc_request/_handle_method_rpc_request on a stub thread per cell. '
+                 'Correspondence: fixed corpus (documented examples, related names, counter 9/10/11, same op twice, re-creation, disconnect, '
+                 'with-form) + exhaustive cell sweep + 400 random histories on real QMI_Context instances over loopback TCP diffed with the model '
+                 'driver and judged by an ideal-lock oracle; 2-4 concurrent threads under the deterministic scheduler (line-level yield points in '
+                 'make_unique_token, weighted/pct, change-point sweeps) with the worker request log replayed on the model; lock(timeout>0) under the '
+                 'virtual clock (timeouts/releases around the 100 ms period) diffed with proxyLockRetry.',
          'note': 'No open finding. Fixed in /repo: 5177c53 (force_unlock of an unlocked object killed the worker), 93903ab (same-named client '
                  'contexts shared automatic tokens), 51f8317 (ACCESS_DENIED placeholder as custom token reported a denied lock as granted); each '
                  'reverted fix is re-found as a new violation. Assumed, not proved: identifiers os.urandom gives to distinct context instances '
-                 "differ (hypothesis of auto_tokens_distinct / only_holder_executes); no custom token deliberately imitates '$lock_<id>_<n>'. "
-                 'Trusted: translator (tokens only compared - checked with randomised tokens), proxy-side model and mkToken tied by correspondence '
-                 'only, atomicity of make_unique_token and of one worker request checked over schedules not proved, message transport exercised not '
-                 'verified, lock(timeout>0) not modelled.',
-         'technique': 'Lean 4 proof (generated finite table + inductive invariants over op histories) + executing translator + differential '
-                      'correspondence on real contexts + schedule exploration with trace refinement + ideal-lock oracle'},
- 'C05': {'text': 'Lean theorems over every class table (MRO of member tables name↦kind + instance dict) and every name (all strings via an injective '
-                 'encoding, proved), for the repaired dispatcher (static lookup, b296ced). For EVERY class: rejected_runs_nothing, '
-                 'effects_only_call, invokable_iff_advertised_of_unshadowed, absent_name_rejected, protected_names_never_advertised, '
-                 'protected_names_rejected_of_constructible. For well-formed classes: dispatch_sound (∀n, invokable↔advertised ∧ (¬invokable → no '
-                 'effects ∧ unknown-RPC reply)), invokable_only_declared, wellFormed_iff. Gen/RpcClasses*.lean regenerated on every run from the '
-                 'live classes (94 QMI_RpcObject classes): 94/94 wf_<Class> by kernel evaluation, no exceptions; 110 theorems. Tie: every class '
-                 'instance behind the real RpcObjectManager/_RpcThread, hand-built method requests for dir(obj) ∪ dunders ∪ near-misses ∪ random '
-                 'strings (34k quick / 140k thorough) with a sys.setprofile tap, diffed against the Lean driver; ~1200 (quick) generated hierarchies '
-                 '(properties, cached properties, static/class methods, callables, hooks, overrides, protected names) through the real '
-                 'metaclass/descriptor/dispatch code.',
-         'note': 'Trusted: Lean kernel + 3 axioms; translator (member classification, AST reading of decorators, fake construction; 12 classes built '
-                 'via __new__); inspect.getattr_static / getmembers mirrored and validated differentially; instance attributes assigned after '
-                 'construction, non-str names, classes overriding __getattribute__ and the lock-token test are outside. No open findings; 18 fixed '
-                 '(b296ced: property getters ran on lookup); the reverted fix is caught with concrete inputs.',
-         'technique': 'Lean 4 proof (generic theorems, several unconditional, + generated per-class obligations by decide +kernel) + differential '
-                      'correspondence of every shipped and generated class through the real dispatch path'},
+                 "differ (hypothesis of auto_tokens_distinct / only_holder_executes); no custom token deliberately imitates '$lock_<id>_<n>'; "
+                 'threading.Lock mutual exclusion and GIL-atomic dict get/set (premises of C04Atomic); float clock of lock(timeout) modelled in '
+                 'whole ms, never probed on a multiple of the period. Trusted: both translators (tokens only compared - checked with randomised '
+                 'tokens; AST shapes - unknown statements fail loudly), proxy-side model tied by correspondence only, one worker request = one '
+                 "action (C03's subject) checked over schedules, message transport exercised not verified, proxies of a stopped context are not "
+                 'used.',
+         'technique': 'Lean 4 proof (generated finite table + inductive invariants over op histories + statement-level interleaving invariant + loop '
+                      'measure) + executing translator + AST translator + differential correspondence on real contexts + schedule exploration with '
+                      'trace refinement + virtual-clock runs + ideal-lock oracle'},
+ 'C05': {'text': 'Lean theorems over every class table (MRO of member tables name↦kind, instance dict, signals, constants) and every name (all '
+                 'strings via an injective encoding, proved), for the repaired dispatcher (static lookup, b296ced) and the WHOLE request handler. '
+                 'For EVERY class: rejected_runs_nothing, effects_only_call, invokable_iff_advertised_of_unshadowed, absent_name_rejected, '
+                 'refused_request_runs_nothing (lock-token test in front of the dispatch), protected_names_never_advertised, '
+                 'protected_names_rejected_of_constructible, proxy_never_forwards_protected. For well-formed classes: dispatch_sound (∀n, '
+                 'invokable↔advertised ∧ rejected ⇒ no effects ∧ unknown-RPC), handle_sound (∀ lock state, token, name: the method is called iff '
+                 'admitted ∧ advertised; otherwise nothing runs, reply OBJECT_IS_LOCKED resp. unknown-RPC), invokable_only_declared, wellFormed_iff, '
+                 'proxy_forwards_advertised (stub names of QMI_RpcProxy = descriptor list). Gen/RpcClasses*.lean regenerated on every run from the '
+                 'live classes (94 classes: vars() along the MRO, @rpc_method declarations and `self.x = …` assignments from the AST, instance dict, '
+                 'signals, _rpc_constants, probed protected list): 94/94 wf_<Class> and 94/94 full_<Class> (refusal runs no code, constants pass the '
+                 'asserts, proxy clean, no assignable attribute shadows a method) by kernel evaluation. Tie: every class instance behind the real '
+                 'RpcObjectManager/_RpcThread; hand-built requests for dir(obj) ∪ dunders ∪ fixed related-name corpus ∪ random strings, repeated, '
+                 'under a real lock with no/right/foreign tokens, with non-str names, with attributes injected after construction (43k quick / 200k '
+                 'thorough), sys.setprofile tap, diffed against the Lean driver; real proxies built and compared; ~1200 generated hierarchies '
+                 '(properties, hooks, __getattribute__, signals, constants, protected names …) incl. all objects of a hierarchy served concurrently.',
+         'note': 'Trusted: Lean kernel + 3 axioms; translator (member classification, AST reading; 12 classes built via __new__); '
+                 'inspect.getattr_static/getmembers mirrored and validated differentially; token equality abstracted to ids; non-str names are '
+                 'checked by the oracle only; whether later code stores a marked plain function in the instance dict is exercised, not derived. No '
+                 'open findings; 19 fixed (b296ced: property getters ran on lookup, 18 sites; 4d38557: unhashable method_name answered with '
+                 'TypeError instead of unknown-RPC); both reverted fixes are caught with concrete inputs.',
+         'technique': 'Lean 4 proof (generic theorems, most unconditional, + generated per-class obligations by decide +kernel) + differential '
+                      'correspondence of every shipped and generated class through the real request handler, lock gate and proxy construction'},
  'C06': {'text': 'Lean theorems over all byte strings, segmentations, payload lists, handler/pending/connection tables (induction, no bounds) about '
                  'a branch-by-branch model of _PeerTcpConnection (_receive_data loop, _process_message, close/_clear_pending_requests, send_message, '
-                 'receive_handshake) and _SocketManager (incl. send_message failure handling): chunking_invariance / all_segmentations / '
-                 'single_bytes (feeding any segmentation = feeding the concatenation: same state, same events), frame_roundtrip, '
-                 'delivers_exactly(+_any_segmentation) (handshake ++ frames => exactly the decoded messages, in order, only the source context '
-                 'rewritten to the alias, buffer empty), violation_closes + violation_delivers_nothing_more with instances for wrong marker, '
-                 'oversize length (size_limit_exact), undecodable / non-message payload, missing / nameless / wrong-direction / repeated handshake '
-                 '(second_handshake_offends: after any accepted handshake and any error-free run), foreign source / destination; '
-                 'closed_is_absorbing; pending_all_failed (any handler behaviour: table emptied, exactly one addressed error reply per entry, in '
-                 'order), close_never_escapes, eof_/violation_/disconnect_/loss_fails_pending; isolation, isolation_events, closed_peer_is_unknown, '
-                 'send_isolation; unsendable_request_fails, unsendable_reply_replaced. Tie: the real MessageRouter/_SocketManager/_PeerTcpConnection '
-                 'driven single-threaded through in-memory sockets; real pickled QMI messages, 19 fault kinds at random frame index/offset, 8 cut '
-                 'modes down to single bytes, random pending sets at loss (violation/EOF/disconnect), handlers that refuse or raise, sends before '
-                 'the handshake / over the size limit / on a failing socket, a bystander connection, reduced and real MAX_MESSAGE_SIZE incl. a '
-                 '10,000,000-byte frame; every recv of the real code is one op line for the Lean driver (3.2k scenarios / 120k recv quick, 41k / '
-                 '1.5M thorough) and an independent reference oracle checks delivery/containment/pending/isolation after every step; search sweeps '
-                 'all cut points and fault positions.',
-         'note': 'Trusted: Lean kernel + 3 axioms; the fake socket/loop harness (c06_fakes.py) and its taps (deliver_message wrapper, log record of '
-                 '_handle_read); pickle as token oracle; TCP FIFO and asyncio reader dispatch modelled; socket-manager code run single-threaded '
-                 '(_EventDrivenThread replaced); handler behaviour is a model parameter; receive_handshake tied by correspondence only; error '
-                 'replies assumed to fit the size limit. All theorems at full strength on the repaired tree; 3 findings fixed (849271e nameless '
-                 'handshake, 6a33dc7 _clear_pending_requests handler exception x2); reverting either fix (or dc3d515) yields a VIOLATION with a '
-                 'concrete input.',
-         'technique': 'Lean 4 proof (induction over byte streams / frame lists; fuel-based frame loop with unfolding lemmas) + recv-by-recv '
-                      'differential correspondence with the real connection layer over in-memory sockets + independent reference oracle'},
+                 'receive_handshake), _TcpServer/_SocketManager (add_incoming_connection, remove/disconnect, send_message incl. failure handling) '
+                 'and MessageRouter.connect_to_peer: chunking_invariance / all_segmentations / single_bytes (feeding any segmentation = feeding the '
+                 'concatenation: same state, same events), frame_roundtrip, delivers_exactly(+_any_segmentation), violation_closes + '
+                 'violation_delivers_nothing_more with instances for wrong marker, oversize length (size_limit_exact), undecodable / non-message '
+                 'payload, missing / nameless / wrong-direction / repeated handshake, foreign source / destination; closed_is_absorbing; '
+                 'pending_all_failed (any handler behaviour), close_never_escapes, eof_/violation_/disconnect_/loss_fails_pending; '
+                 'handshake_reader_exact / handshake_reader_waits_or_done (the blocking client-side reader, for every way the socket hands out the '
+                 'bytes, consumes exactly the first frame and leaves the rest in the socket), connect_succeeds, connect_wrong_name_refused, '
+                 'connect_duplicate_refused, connect_invalid_name_refused, connect_failure_registers_nothing, accept_failure_registers_nothing, '
+                 'accept_alias_fresh + aliasesBelow_preserved (aliases never collide, invariant over every socket-manager operation); isolation, '
+                 'isolation_events, closed_peer_is_unknown, send_isolation, interleaving_irrelevant / any_two_merges_agree (any merge of the '
+                 "connections' segment sequences = each connection's run on its own); unsendable_request_fails, unsendable_reply_replaced. Tie: the "
+                 'real MessageRouter/_SocketManager/_TcpServer/_PeerTcpConnection driven single-threaded through in-memory sockets (accept through '
+                 'the real _TcpServer reader, connect through the real connect_to_peer); real pickled QMI messages, 19 fault kinds at random frame '
+                 'index/offset, 8 cut modes down to single bytes, random pending sets at loss (violation/EOF/disconnect), handlers that refuse or '
+                 'raise, sends before the handshake / over the size limit / on a failing socket, error replies at / over the size limit, accept() / '
+                 "TCP_NODELAY / handshake-send failures, duplicate and '$' connects, equal and related peer names, reused request ids, version "
+                 'mismatch, reduced and real MAX_MESSAGE_SIZE incl. a 10,000,000-byte frame; a fixed corpus (every fault in both roles, '
+                 'limit-1/limit/limit+1 frames and handshakes, repeated operations) runs first on every seed; every recv of the real code (and the '
+                 'byte count it asked for in receive_handshake) is one op line for the Lean driver (3.4k scenarios / 130k recv quick, 41k / 1.5M '
+                 'thorough) and an independent reference oracle checks delivery/containment/pending/isolation after every step; search sweeps all '
+                 'cut points and fault positions.',
+         'note': 'Trusted: Lean kernel + 3 axioms; the fake socket/loop harness (c06_fakes.py) and its taps (deliver_message wrapper, log records of '
+                 '_handle_read / connect_to_peer); pickle as token oracle (decoding and the pickled size of error replies are told to the model); '
+                 'TCP FIFO, recv returning 1..n bytes and asyncio reader dispatch modelled; socket-manager code run single-threaded '
+                 '(_EventDrivenThread replaced); handler behaviour is a model parameter. Outside the model: suppress_version_mismatch_warnings, '
+                 'close_all/stop, UDP responder, handshake timeout. All 51 theorems at full strength on the repaired tree; 3 findings fixed '
+                 '(849271e, 6a33dc7 x2); reverting a fix or dc3d515 yields a VIOLATION with a concrete input; 25 + 6 self-test mutations caught '
+                 '(one, dropping the error reply to the peer, only as a broken correspondence: it is model content, not part of the property '
+                 'statement).',
+         'technique': 'Lean 4 proof (induction over byte streams / frame lists / operation sequences; fuel-based frame loop with unfolding lemmas; '
+                      "inductive 'Serves' predicate for the blocking reader; alias invariant) + recv-by-recv differential correspondence with the "
+                      'real connection layer over in-memory sockets + independent reference oracle'},
  'C07': {'text': 'Lean theorems over an interleaving model of SignalManager (one micro-operation per lock section, unbounded '
                  'contexts/publishers/receivers/threads/connections): key_injective (+remote, prefix test); delivered_iff_in_snapshot(+_done): every '
                  'snapshot _deliver_local takes is delivered to exactly its members, once, labelled with its key; no_delivery_after_unsubscribe '
@@ -204,25 +253,34 @@ CHECKS = {'C01': {'text': 'Lean theorems about an interleaving transition system
                  'reverting either commit is reported as a VIOLATION with a concrete input.',
          'technique': 'Lean 4 proof (inductive invariant over op histories; exhaustive kernel decide over schedules lifted to all schedules) + '
                       'refinement correspondence with the real classes under a deterministic scheduler'},
- 'C13': {'text': 'Lean theorems about an executable model of QMI_Tcp/Udp/SerialTransport (read, read_until, read_until_timeout, discard_read, open, '
-                 'close; device = oracle script of recv results data|timeout|eof with elapsed virtual time, i.e. every packetisation and arrival '
-                 'timing), for all states, scripts, terminators (any length), counts, time-outs (None/0/+/-) and all op sequences incl. the device '
-                 'sending at any point: conservation (returned/discarded log ++ buffer ++ undelivered = device stream; unconditional for TCP/serial '
-                 '= conservation_stream, for UDP when every datagram fits the packet size = conservation_udp, otherwise exactly one datagram lost = '
-                 'lost_datagram_step), read_exact, readUntil_shortest (+ chunking invariance), timeout/exception_consumes_nothing, '
-                 'readUntilTimeout_le_n for all three transports (+ keeps_rest), closed_never_touches_device, open_close_state_machine / isOpen_run, '
-                 'discard_empties_buffer, exhausted_only_when_script_empty. 27 theorems, all full strength. Tie: the three real transports against a '
-                 'scripted socket / serial.Serial and virtual time.monotonic; result, exception class, every device interaction, clock, script '
-                 'position and _read_buffer diffed with the Lean driver per op; independent oracle: returned bytes are the front of the undelivered '
-                 'stream, buffer = undelivered, exactly-n / shortest / at-most-n, a datagram that fits the packet size is never lost or cut, closed '
-                 '=> no device call, open/close refusals.',
+ 'C13': {'text': 'Lean theorems about an executable model of QMI_Tcp/Udp/SerialTransport (open incl. every way it can fail, close, write, read, '
+                 'read_until, read_until_timeout, discard_read; device = oracle script of recv results data|timeout|eof with elapsed virtual time, '
+                 'i.e. every packetisation and arrival timing; open() outcomes = oracle plan), for all states, scripts, terminators (any length), '
+                 'counts, time-outs (None/0/+/-) and all op sequences incl. the device sending at any point: conservation (returned/discarded log ++ '
+                 'buffer ++ undelivered = device stream; unconditional for TCP/serial = conservation_stream, for UDP when every datagram fits the '
+                 'packet size = conservation_udp, otherwise exactly one datagram lost = lost_datagram_step), read_exact, readUntil_shortest (+ '
+                 'chunking invariance), timeout/exception_consumes_nothing, readUntilTimeout_le_n for all three transports (+ keeps_rest), '
+                 'closed_never_touches_device (reads, discard, close, write), open_close_state_machine incl. failed open leaves the transport '
+                 'closed, failed_open_can_be_retried / open_succeeds_when_os_allows, isOpen_run, write_spec / written_run (the device receives '
+                 'exactly the payloads of the successful writes, one unit per call, in order), serial_call_returns_by_deadline_plus_slice and '
+                 'serial_nonblocking_read_takes_no_time, discard_empties_buffer, exhausted_only_when_script_empty (loop fuel never binds). Tie: the '
+                 'three real transports against a scripted socket / serial.Serial (incl. failing connect / gethostbyname / bind / Serial()) and '
+                 'virtual time.monotonic; result, exception class, every device interaction (settimeout values, recv/send sizes, '
+                 'connect/bind/close), clock, script position, _read_buffer and _is_open diffed with the Lean driver per op; independent oracle: '
+                 'returned bytes are the front of the undelivered stream, buffer = undelivered, exactly-n / shortest / at-most-n, a datagram that '
+                 'fits the packet size is never lost or cut, closed => no device call, open/close refusals, failed open raises and leaves closed, '
+                 'flag = state machine, write handed over whole, serial calls back within time-out + slice. A fixed boundary corpus runs first on '
+                 'every seed.',
          'note': "Trusted: Lean kernel + 3 axioms; the scripted device (stream recv <= requested with remainder kept, datagram whole or OSError, b'' "
-                 'at EOF, settimeout(<0) ValueError, in_waiting/reset_input_buffer semantics) and virtual clock; bytearray.find/endswith mirrored '
-                 'and diffed; open() always succeeds (connect failure not modelled); write() not modelled; packet-size constants read from the live '
-                 'classes each run. 0 known findings; 1 fixed (916a4b4: UDP read_until_timeout returned more than n bytes), reverting the fix is '
-                 'reported as a new violation with a concrete input.',
-         'technique': 'Lean 4 proof (stream-accounting invariant by induction over fuel-recursive loop models and op lists) + op-sequence '
-                      'correspondence with device-interaction traces against scripted devices'},
+                 'at EOF, settimeout(<0) ValueError, in_waiting/reset_input_buffer semantics, open/send succeed or fail as planned) and virtual '
+                 'clock (1 tick = 1/8 s, exact floats); bytearray.find/endswith mirrored and diffed; a write failing half-way in the OS is not '
+                 'modelled; socket deadlines are tied by diffing clock and settimeout values, the deadline theorem is proved for serial only '
+                 '(assuming each Serial.read returns within one slice); packet-size constants read from the live classes each run. Vxi11/USBTMC/GPIB '
+                 'transports are not named by the property and not modelled (only the shared base-class open/close logic transfers). 0 known '
+                 'findings; 1 fixed (916a4b4: UDP read_until_timeout returned more than n bytes), reverting it is reported as a new violation with a '
+                 'concrete input.',
+         'technique': 'Lean 4 proof (stream-accounting invariant by induction over fuel-recursive loop models and op lists; clock invariants for the '
+                      'deadline loops) + op-sequence correspondence with device-interaction traces against scripted devices'},
  'C14': {'text': 'Lean theorems, generic over all parser tables passing the decidable checks EnvOk/AllAligned (Gen regenerated from the live parser '
                  'instances, constructor signatures and create_transport AST; both checks re-decided on it every run), all strings, all well-typed '
                  'default dictionaries, both platforms: total (FULL strength: a transport or QMI_TransportDescriptorException, nothing else), '
@@ -257,88 +315,150 @@ CHECKS = {'C01': {'text': 'Lean theorems about an interleaving transition system
                  'read_raw does not validate MsgID/bTag of Bulk-IN headers (theorem readRaw_tag_fields_unchecked).',
          'technique': 'Lean 4 proof (round-trip/soundness laws by induction, algebraic CRC residue, generated-layout obligations by decide) + '
                       'differential correspondence with independent reference devices'},
- 'C16': {'text': 'Lean theorems over all lines/texts/trees/type descriptors (mutual structural recursion, no bounds): strip_exact, '
-                 'strip_comments_exact, load_ignores_comments, duplicate_key_rejected/load_ok_iff, strip_render_id + load_dump_roundtrip (json as '
-                 'parameter), admits_iff (parser = independent inductive spec Admits), admits_functional, roundtrip (parseValue τ (toDict v) = ok '
-                 'v), only_config_error at FULL strength + parse_total (every outcome is a structure or a QMI_ConfigurationException), '
-                 'error_names_item, offending_is_rejected/accepted_iff_no_offender, nonsized_is_mismatch, hugeint_is_mismatch, float_boundary, '
-                 'ctor_revalidation_noop, shipped_wf/shipped_roundtrip for the structs regenerated from config_defs.py. 32 theorems, all full '
-                 'strength. Model tied to the code by ~30k quick / ~900k thorough differential cases on real @configstruct classes generated from '
-                 'random descriptors, plus a direct statement-level oracle.',
-         'note': 'Trusted: Lean kernel + 3 standard axioms; translator (dataclasses.fields -> Gen/CfgDefs.lean) and harness; json.loads/dumps as '
-                 'parameters (round trip assumed, dumps(indent=4) layout compared differentially); regex of _strip_comments re-implemented as a '
-                 'scanner (differential only); floats opaque; recursion limit, non-string keys, init=False fields, bare list/dict types out of '
-                 'scope. 0 known findings; 5 signatures fixed (98ede17 TypeError from len() of a non-sized value in a fixed Tuple field; f71d1e5 '
-                 'OverflowError from float() of a huge int); reverting either fix yields a VIOLATION with a concrete input.',
-         'technique': 'Lean 4 proof (parser sound+complete against an inductive admission relation, round-trip and error-spec theorems, generated '
-                      'per-struct obligations by decide) + differential correspondence + independent property oracle'},
- 'C17': {'text': 'Lean theorems (27, all full strength): attr_roundtrip (text attribute value round trip for every valid str/int/bool/float, every '
-                 'isprintable classification), reshape_roundtrip, scale_recovered, index_column_is_coordinate, layout_roundtrip for all shapes; '
-                 'hdf5_roundtrip, reserved names rejected, empty label ↔ absent attribute; no_silent_overwrite over all histories, '
-                 'make_folder_fresh, lex_eq_numeric, find_latest_is_max; recorder_invariant (file ++ local ++ shared = recorded) over all '
-                 'interleavings, all_blocks_after_close, writer_finishes. Tie: generated datasets through 7 write/read/convert paths (hdf5, text, '
-                 'hdf5→text, text→hdf5, hdf5→text→hdf5 …) in a temp dir, store histories incl. related-label families on a real temp dir, recorder '
-                 'with real h5py and the writer thread line-stepped (sys.settrace) at every position; diff with the Lean driver + direct oracle.',
-         'note': "Trusted: Lean kernel + 3 axioms; h5py/HDF5, numpy savetxt/loadtxt/reshape, the file system (open 'x'/mkdir atomic), CPython "
-                 'repr/float/int and str.isprintable (abstract parameter), strftime; datastore/dataset regexes re-implemented and diffed; recorder '
-                 'atomicity taken from the lock in the code. 5 defects found by the check were repaired in /repo (4c93d47 numpy scalars after HDF5 '
-                 'read, 1c58093 \\\\U escapes, 37955b4 inexact integers now refused loudly instead of rounded, 4ddf66d line break in attribute name, '
-                 '7d3961f `$`-before-newline in datastore regexes; 9 signatures recorded as fixed); each reverted fix is re-detected with a concrete '
-                 'input.',
-         'technique': 'Lean 4 proof (round-trip laws, history invariants, interleaving invariant of the recorder) + differential correspondence on '
-                      'real files + line-stepped trace refinement of the recorder'},
- 'C18': {'text': 'Lean theorems for every packet layout passing WellFormed (live ctypes layout, MAGIC, enum, lookup table, recvfrom sizes and the '
-                 'is_valid_object_name limit are regenerated into Gen/DiscoveryLayouts.lean on every run; gen_layout_wf by decide): '
-                 'glob_sound_complete (state-set matcher = inductive shell-pattern semantics, all patterns/names; brackets reproduce CPython 3.12 '
-                 'fnmatch.translate), unpack_total/unpack_complete/unpack_valueError_iff, respond_iff (answers iff both filters match, for EVERY '
-                 'context QMI_Context.__init__ admits), admit_only_reportable, echo_fields/echo_admitted, junk_ignored + junk_then_answers, '
-                 'client_filters/client_never_self, discovery_end_to_end (uses a proved UTF-8 decode∘encode = id). 24 theorems, all full strength. '
-                 'Tied to the code by differential runs of the real _UdpResponder (reader callback on a fake datagram socket, directly and under a '
-                 'real asyncio loop), of discover_peer_contexts on a fake socket/selector/clock and of the real QMI_Context constructor (admission), '
-                 'a three-way glob diff (Lean / fnmatch.fnmatchcase / responder), exhaustive bracket bodies, every truncation length, tag values, '
-                 'bit-level id/timestamp sweeps; direct oracle on every trace.',
-         'note': 'Trusted: Lean kernel + 3 standard axioms; translator and harness; asyncio containment of exceptions leaving _handle_read '
-                 '(ValueError of the enum lookup, UnicodeDecodeError of a non-UTF-8 filter) is assumed in the model and exercised under a real event '
-                 "loop; ctypes, fnmatch/re, UTF-8 and the constructor's name checks are re-implemented and diffed, not verified; UDP/selectors/the "
-                 '0.1 s window are faked. Fixed by eeba404 (found by this check): unvalidated workgroup names longer than 64 bytes / containing NUL '
-                 'broke answering and the echoed workgroup.',
-         'technique': 'Lean 4 proofs (derivative-based matcher vs inductive spec, packet round-trips, invariance under junk, admission => '
-                      'reportable, end-to-end composition) + regenerated layout obligation + differential correspondence with the real responder, '
-                      'asker and context constructor'},
- 'C19': {'text': 'Lean theorems over an abstract open()/close() program language (fuel-based semantics, state = flag, open links, device log; fault '
-                 'plan = the k-th potentially-raising step raises kind κ): fault_beyond_end (∀ plan reduces to a finite table), all_plans_of_table; '
-                 'consistent_of_safe (a plan-independent abstract run, sound by chk_sound, accepts ⇒ consistent under every plan, any nesting and '
-                 'number of links) and its single-link syntactic special case consistent_of_wf; retry_possible, close_after_open(_safe), '
-                 'closed_no_io, double_open_close_refused. Per driver class (64 programs regenerated from the AST of open/close on every run): ok_X '
-                 ': ∀ plan, Consistent ∧ run complete, hist_X, recover_X, shape_X (safeOpen/safeClose hold for all 64), by decide +kernel; a class '
-                 'that violates the property would instead get the kernel-checked negation witness bad_X + exact_X. 291 theorems. Tie: every class '
-                 'is instantiated around recording fault-injecting transports; every transport call of the real open() × {timeout, instrument error, '
-                 'OS error, junk reply} is swept; executed statements (line trace), exception, is_open() and link flags are diffed against the model '
-                 'run under the corresponding plan; plus seeded open/close histories (with faulty opens) and every RPC method on the closed '
-                 'instrument.',
-         'note': 'Trusted: Lean kernel (axioms used: propext, Quot.sound); translator harness/tr_openprogs.py (conservative: whitelist of pure '
-                 'statements, refuses source it does not understand) and the fake transport; `io` statements are one opaque potentially-raising step '
-                 '(validated by the per-run correspondence); concrete transports, faults inside close(), multiple faults and BaseException are out '
-                 'of scope. The 12 defects found on the pinned tree are repaired (11 fix commits, all in known findings as fixed); reverting any of '
-                 'them is reported as a VIOLATION with a concrete fault.',
-         'technique': 'Lean 4 proof (generic lemmas + verified abstract interpreter + per-class decide +kernel on programs translated from source) + '
-                      'line-trace fault-sweep correspondence with the real drivers'},
+ 'C16': {'text': 'Lean theorems over all lines/texts/trees/annotations/type descriptors (mutual structural recursion, no bounds; 50 theorems, none '
+                 'partial): comments — strip_exact, strip_comments_exact, load_ignores_comments, strip_newline_style_irrelevant; duplicate keys — '
+                 'duplicate_key_rejected, load_ok_iff; dump/load — strip_render_id, load_dump_roundtrip (json as parameter), dump_has_no_cr; typed '
+                 'conversion — admits_iff (parser = independent inductive spec Admits, incl. untyped list/Tuple/dict), admits_functional, roundtrip, '
+                 'only_config_error at FULL strength, parse_total, error_names_item, offending_is_rejected/accepted_iff_no_offender, '
+                 'ctor_revalidation_noop; acceptance test — check_accepts_iff_supported (_check_config_struct_type = the documented type list, for '
+                 'every annotation tree incl. multi-member Union, non-string-key Dict, builtin tuple, None, anything else), check_only_config_error, '
+                 'accepted_type_is_handled, parseRaw_only_config_error; entry points — from_dict_is_parse, fromDictFull_rejects_unsupported, '
+                 'toplevel_nondict_rejected, createConfig_no_file/arg_wins/errors/ok (which file create_config_from_file reads, config_file '
+                 'recorded, only OSError/ValueError/configuration errors); shipped_wf/shipped_roundtrip for the structs regenerated from '
+                 'config_defs.py. Fixed on the way (recorded as fixed, reverting either is caught): TypeError from len() of a non-sized value in a '
+                 'fixed Tuple (98ede17), OverflowError from float() of a huge int (f71d1e5), TypeError for a non-string unknown key in structure '
+                 'data (568944c), to_dict emitting init=False fields that from_dict rejects (f6f101b). Open known finding (repair drafted: '
+                 'fixes/C16-nested-struct-with-non-init-field): a *nested* structure with an init=False field cannot be given explicitly — the '
+                 "enclosing constructor's re-validation goes through dataclasses.asdict, which includes the derived field ('Unknown configuration "
+                 "item', or AttributeError when it has no default). Model tied to the code by ~35k quick / ~1M thorough differential cases on real "
+                 '@configstruct classes and real files, plus an independent statement-level oracle.',
+         'note': 'Trusted: Lean kernel + 3 standard axioms; translator (dataclasses.fields -> Gen/CfgDefs.lean), annotation inspection '
+                 '(describe_raw) and harness; json.loads/dumps as parameters (round trip assumed, dumps(indent=4) layout compared differentially); '
+                 'regex of _strip_comments re-implemented as a scanner (differential only); floats opaque (repr; float(int) resolved by Python); '
+                 'Python repr of dict keys in paths; file system, text decoding, universal newlines, abspath, getenv as parameters (exercised on '
+                 'real files). Model keys are strings (non-string keys: oracle only); init=False fields are modelled in the acceptance test only '
+                 '(parser and to_dict behaviour on them: fixed oracle corpus, not in the Lean parser — PV.inst/toDict are type-free, so this needs a '
+                 "per-field flag through the whole model); ill-typed (never validated) defaults, Python's recursion limit and CPython's 4300-digit "
+                 'int<->str limit are out of scope.',
+         'technique': 'Lean 4 proof (parser sound+complete against an inductive admission relation; acceptance test = inductive Supported; '
+                      'round-trip, error-spec and entry-point theorems; generated per-struct obligations by decide) + differential correspondence '
+                      '(structs, raw annotations, texts, real files, create_config_from_file) + independent property oracle + fixed boundary corpus'},
+ 'C17': {'text': 'Stored data reads back equal (HDF5/text, incl. conversion chains), is never silently overwritten, folders are fresh even under '
+                 'concurrent creation, latest-folder lookup is the max for the label and agrees with the listing, recorder keeps every block once '
+                 'and in order and every attribute newest-wins under all interleavings',
+         'note': '44 theorems, all full strength, no _partial: text attribute round trip on every valid value (incl. \\U escapes); '
+                 'layout/reshape/scale for all shapes, with well-formedness derived from the DataSet constructor/setters; float64 exactness of the '
+                 "text writer's integer check (accept iff exactly representable, threshold 2^53 sound, rounding idempotent); refused writes leave an "
+                 'empty file only; HDF5 attribute map; overwrite histories; make_folder freshness incl. a two-caller interleaving model (only mkdir '
+                 'atomic); find_latest maximal, = last of list_folders, None iff listing empty; recorder block conservation, close, attribute '
+                 'newest-wins, writer progress. 5 defects found and repaired in /repo (9 signatures fixed); 1 open known finding (writer-thread I/O '
+                 'error not reported by close(), repair drafted in fixes/). h5py/numpy/OS/CPython float & repr remain trusted.',
+         'technique': 'Lean 4 models + differential correspondence on the real code (7 write/read/convert paths, tagged layout probes, HDF5 '
+                      'attribute-map probes, int(float(v)) vs toF64, DataSet API accept/refuse, store histories with related-label families, '
+                      'midnight/year roll-over, list_folders) + forced two-thread race inside make_folder + trace refinement of the recorder with '
+                      'the writer thread line-stepped (sys.settrace + cooperative Condition) at every position + I/O fault injection into the '
+                      'writer'},
+ 'C18': {'text': 'Lean theorems for every packet layout passing WellFormed (live ctypes layout, MAGIC, enum, lookup table, recvfrom sizes, the '
+                 'is_valid_object_name limit, the responder port and the default collection window are regenerated into Gen/DiscoveryLayouts.lean on '
+                 'every run; gen_layout_wf by decide): glob_sound_complete (state-set matcher = inductive shell-pattern semantics, all '
+                 "patterns/names; brackets reproduce CPython 3.12 fnmatch.translate incl. unclosed '[', '[]..]', empty ranges), "
+                 'unpack_total/unpack_complete/unpack_valueError_iff, respond_iff (answers iff both filters match, for EVERY context '
+                 'QMI_Context.__init__ admits), admit_only_reportable, echo_fields/echo_admitted (request id and timestamp bit-exact; name, '
+                 'workgroup, pid, port read back exactly), junk_ignored + junk_then_answers (any datagrams that are not well-formed requests, any '
+                 'number/order, leave the responder unchanged), kill_iff/kill_not_answered (os._exit is reached exactly by a well-formed kill '
+                 "request, which is never answered), escape_classes (the only exceptions that can leave _handle_read: the enum's ValueError on an "
+                 'unknown tag, UnicodeDecodeError of a non-UTF-8 filter; never a QMI exception), client_filters/client_never_self, '
+                 'ping_window/ping_stops_at_deadline/ping_turns_bounded/junk_in_window_ignored (the receive loop with its clock: exactly the answers '
+                 'that arrive before the deadline, nothing read after it, at most `timeout` turns under any flood if the clock advances), '
+                 'discovery_end_to_end (request by create -> any set of running contexts -> list = exactly the matching others; uses a proved UTF-8 '
+                 'decode∘encode = id). Tied to the code by differential runs of the real _UdpResponder (reader callback on a fake datagram socket, '
+                 'directly and under a real asyncio loop, os._exit shimmed), of ping_qmi_contexts / discover_peer_contexts under a scripted selector '
+                 'and clock (every tick around the deadline, floods, stalled clock) and of the real QMI_Context constructor, a three-way glob diff '
+                 '(Lean / fnmatch.fnmatchcase / responder) on generated pairs and exhaustive bracket bodies, every truncation length, tag values, '
+                 'every one-bit neighbour of a kill request, bit-level id/timestamp sweeps, related names (prefix/suffix/case/trailing newline); '
+                 'direct oracle on every trace.',
+         'note': 'Trusted: Lean kernel + 3 standard axioms; translator and harness; asyncio containment of the two exception classes that leave '
+                 '_handle_read (assumed in the model, exercised under a real event loop; which classes can leave is proved for the model, tied to '
+                 'the try/except and raise structure of the source by the translator, and any other class is flagged by the oracle); ctypes, '
+                 "fnmatch/re, UTF-8 and the constructor's name checks are re-implemented and diffed, not verified; UDP, selectors and time.monotonic "
+                 'are scripted fakes, and that the clock advances between loop turns is an assumption. The trailing-newline quirk of '
+                 "is_valid_object_name ('abc\\n' is accepted) is mirrored and shown harmless for discovery. Fixed by eeba404 (found by this check): "
+                 'unvalidated workgroup names longer than 64 bytes / containing NUL broke answering and the echoed workgroup.',
+         'technique': 'Lean 4 proofs (derivative-based matcher vs inductive spec, packet round-trips, invariance under junk, exact kill and '
+                      'exception-escape characterisations, deadline-bounded receive loop, admission => reportable, end-to-end composition) + '
+                      'regenerated layout/AST obligations + differential correspondence with the real responder, asker (scripted clock) and context '
+                      'constructor'},
+ 'C19': {'text': 'Lean theorems over an abstract open()/close() program language translated from the source of every transport-based driver (64 '
+                 'programs; fuel-based semantics; state = open flag, open links, device log; fault plan = any function from fault-point index to '
+                 'exception kind, i.e. any number of faults per call; fault points = link open, every statement not provably pure, and link close). '
+                 'Generic: chk_sound (a plan-independent abstract run over flag+links, following normal and exceptional continuations through nested '
+                 'handlers, is sound for every plan) ⇒ consistent_of_safe / all_plans_of_safe (open() leaves is_open() ⇔ link held under EVERY plan, '
+                 'any nesting, any number of links, including failures of the cleanup itself), close_faults_safe / close_all_plans_of_safe (the same '
+                 'for close() after open()), close_after_open(_safe), fault_beyond_end + all_plans_of_table (single-fault family as a finite table, '
+                 'used to pin down the exact failing plans of a defective class), consistent_of_wf (readable single-link discipline), '
+                 'retry_possible, closed_no_io, method_closed_no_io / guarded_method_refused (RPC-method shapes found by a static guard analysis of '
+                 'all ~1460 @rpc_methods), double_open_close_refused. Per class by decide +kernel / rfl: ok_X : ∀ plan, consistent ∧ complete '
+                 '(64/64), hist_X, recover_X, shape_X (safeOpen 64/64 and safeClose 64/64: open() and close() of every class are consistent under '
+                 'every plan; a class that violated either would get the kernel-checked negation witness bad_X/closebad_X with the computed plan), '
+                 "rpcguard_X / rpcbare_X (exact list of methods that rely on the transport's own state check), ok/hist_QMI_Instrument (flag protocol "
+                 'of the base class, pattern-checked against instrument.py). Tie: every class is instantiated around recording, fault-injecting '
+                 'transports that run the real QMI_Transport.open/close/_check_is_open; swept on every run: every transport call of open() × '
+                 '{timeout, instrument error, OS error, junk reply}, pairs of faults, every transport call of close(), close() after every RPC '
+                 'method was used; executed statements (line trace), exceptions, is_open() and link flags are diffed against the model run under the '
+                 'corresponding plan; fixed corpus + seeded open/close histories with faulty opens/closes; every RPC method on the closed '
+                 'instrument, cross-checked against the static guard table; flag-protocol histories on non-transport drivers that can be built here.',
+         'note': 'Trusted: Lean kernel (axioms used: propext, Quot.sound); translator harness/tr_openprogs.py (conservative whitelist of pure '
+                 "statements; refuses source it does not understand; checks that QMI_Instrument.open/close/_check_* and every transport's close() "
+                 'still have the modelled shape) and the fake transport; an `io` statement is one opaque potentially-raising step (assumed not to '
+                 'touch flag/links — validated by the per-run trace/state diff). All 19 defects found are repaired (12 in open(): 11 commits; 7 for '
+                 'a failure inside close() — 6 drivers closed the transport before clearing the flag, Bristol_871A.close() did not release the '
+                 'second link if closing the first failed: 7 commits); reverting a fix is reported as a VIOLATION with a concrete fault; '
+                 'known_findings.d/C19.json has no open finding. Out of scope: BaseException during open()/close(); vendor-library handles of '
+                 'non-transport drivers (only the flag protocol transfers); `value`/`other` exception kinds are never injected dynamically (a class '
+                 'refuted only for them is reported as a broken link).',
+         'technique': 'Lean 4 proof (verified abstract interpreter + generic lemmas + per-class decide +kernel on programs translated from source) + '
+                      'line-trace fault-sweep correspondence with the real drivers + static guard analysis validated dynamically'},
  'C20': {'text': 'Lean theorems over all symbol lists / file maps / name tables / device states / name lists / value assignments (induction, no '
-                 'bounds): binding_injective, binding_complete (iff), conflicting_definitions_rejected, violation_rejected_with_position '
-                 '(file/line/label of the first symbol that names an unknown array, has an unconvertible index, or clashes with an earlier '
-                 'definition), analyze_outcomes (binding or ParseException, nothing else), ranges_partition, batch_set_eq_single, '
-                 'batch_get_eq_single, touches_exactly_bound_registers (⊆ and ⊇), name_denotes_one_register / names_resolve_injectively, '
-                 'start_with_params_eq_single, parse_terminates (unconditional: ≤ length fs + 1 opens for every file map incl. include cycles), '
-                 'include_cycle_parsed_once. 15 theorems, all full strength. Tie: five differential streams against the real code (scanner texts, '
-                 'include resolution, range lists, ~8k layouts with injected duplicates/conflicts incl. Par_n<->FPar_n rebinding + accessor ops on '
-                 'the real Adwin_Base over a fake ADwin library, ~1.5k generated program trees on disk incl. nested/diamond/cyclic/missing includes) '
-                 '≈ 23k cases quick / 215k thorough, plus a direct oracle (one-to-one or positioned rejection; open()-budget watchdog + '
-                 'include-cycle detection; batch ≡ one-at-a-time; touched = bound).',
+                 'bounds; 23 theorems, none partial): binding_injective (accepted => names distinct ignoring case, binding injective into '
+                 'Par/FPar/array-element resp. Data registers), binding_complete (iff), conflicting_definitions_rejected, '
+                 'violation_rejected_with_position (error names file/line/label of the first symbol that names an unknown array, has an '
+                 'unconvertible index, or clashes with an earlier definition), analyze_outcomes (binding or ParseException, nothing else), '
+                 'ranges_partition (sorted, disjoint, maximal, union = input), batch_set_eq_single (same registers on success; same exception and '
+                 'exact partial effect on failure), batch_get_eq_single, batch_get_any_names + batch_get_drops_repeated_spelling (what happens for '
+                 'repeated spellings: every entry correct, every register returned, only the surviving spelling differs), '
+                 'touches_exactly_bound_registers, set_then_get (batch read after batch write returns what was written), name_denotes_one_register / '
+                 'names_resolve_injectively (parser and manager fold with upper(); unconditional on the modelled alphabet), '
+                 'batch_get_eq_single_on_parsed_program, validated_accessors_eq_library_semantics + batch_eq_single_validated (the Adwin_Base '
+                 'validation layer - index ranges 1..80 / 1..200, first element >= 1, integer dtype of a merged range - is in the model; on existing '
+                 'registers and well-typed values it is the identity, so all batch theorems hold through the real driver layer), '
+                 'nonexistent_register_refused (Par_0, FPar_81, Data_201, Data_x[0]: the name denotes no register and never another one - refused '
+                 'before any device call), config_table_spec (ProgramInfo.from_config with explicit parameters: exactly the configured table, names '
+                 'unique ignoring case, every spelling resolves to its own entry), start_with_params_eq_single / '
+                 'start_with_params_touches_every_parameter (zero-fill path), parse_terminates (unconditional: <= length fs + 1 opens for every file '
+                 'map incl. include cycles; result independent of the budget), include_cycle_parsed_once. Five defects found by the check and '
+                 'repaired, each now proved at full strength and re-detected when its fix is reverted: 48b63c7 (include cycle / self-include never '
+                 'terminated), 53c483e (>4300-digit index -> ValueError), 5ae01c1 (manager folded names with lower(), parser with upper(): U+212A '
+                 "KELVIN SIGN name resolved to another name's register), e4893fe (from_config accepted bar/Bar and resolved Bar to bar's register). "
+                 'Tie: six differential streams against the real code (scanner texts, include resolution, range lists, ~8k layouts with injected '
+                 'duplicates/conflicts incl. Par_n<->FPar_n rebinding, non-ASCII case twins, registers at and beyond the device limits + accessor '
+                 'ops on the real Adwin_Base over a fake ADwin library incl. refused accesses and floats into integer arrays, ~1.5k hand-configured '
+                 'tables through ProgramInfo.from_config, ~1.5k generated program trees on disk incl. nested/diamond/cyclic/missing includes, '
+                 'same-basename files and un-normalised spellings of one path) ~ 25k cases quick / 230k thorough, plus a direct oracle (one-to-one '
+                 'or positioned rejection of a real conflict; every resolved include parsed and every #Define line of a parsed file reported; '
+                 'open()-budget watchdog + include-cycle detection; own spelling resolves to own register; batch == one-at-a-time on registers, '
+                 'values, types, touched = bound, read-back = written; outside the set-of-names domain: same exception as one at a time, exact '
+                 'partial effect, repeated spellings; nonexistent registers refused without a trace).',
          'note': 'Trusted: Lean kernel + 3 standard axioms; harness/generators; the six regexes, splitlines/universal newlines, posixpath '
-                 'join/dirname/normpath and int() digit limit are re-implemented in the model and only differentially checked (ASCII + '
-                 'line-separator code points; non-ASCII upper()/lower() not modelled); file system = finite path→text map; the ADwin is a total '
-                 'register file (Adwin_Base range/dtype validation, numpy dtype unification, 32-bit wrap not modelled). Batch≡single oracle domain: '
-                 'bound, case-distinct names and well-typed values. 0 known findings; 3 fixed (48b63c7 include cycle + self-include never '
-                 'terminated; 53c483e >4300-digit index -> ValueError); reverting either fix yields a VIOLATION with a concrete input.',
-         'technique': 'Lean 4 proof (loop invariants over dict-shaped state, two-phase batch vs fold refinement, measure-function termination of the '
-                      'include walk) + differential correspondence with the real parser/manager + watchdog-guarded failing-input search'}}
+                 'join/dirname/normpath and the int() digit limit are re-implemented in the model and only differentially checked; '
+                 'str.upper()/lower() are modelled on ASCII plus the eleven non-ASCII code points that have an ASCII case partner (sharp s, dotless '
+                 'i, long s, Kelvin sign, ligatures) - other non-ASCII letters are outside the modelled alphabet; file system = finite path->text '
+                 'map (open() resolution ~ normpath, no symlinks, every OSError one value); below Adwin_Base the ADwin library is a total register '
+                 'file that stores values as given (array lengths, 32-bit wrap-around, float32 rounding, the int->float64 conversion on store are '
+                 "the library's/numpy's; numpy dtype unification is modelled as 'float dtype iff some value is a float'; comparisons are numeric). "
+                 'Model fuel = open() calls = the harness watchdog budget (200). Register existence (Par_0, Par_81, ...) is deliberately not a parse '
+                 "error: the parser has no device knowledge; the statement's 'exactly one register' is read as 'never another register', proved as "
+                 'nonexistent_register_refused. Hand-configured tables may still give two names one register (no such check in from_config); the '
+                 'batch theorems do not need injectivity for writes, and state exactly what reads return.',
+         'technique': 'Lean 4 proof (loop invariants over dict-shaped state, two-phase batch vs fold refinement, refinement between the validating '
+                      'driver layer and the library-level semantics, measure-function termination of the include walk) + differential correspondence '
+                      'with the real parser/manager/driver + watchdog-guarded failing-input search; fix-revert regression for every repaired defect'}}
